@@ -580,6 +580,8 @@ partial def next (tid : Nat) : M Bool := do
   setCur tid
   let t ← getTask tid
   let mut isNext := false
+  let wasCompleted := t.state.isCompleted
+  if wasCompleted then updateData tid (← get).vars
   if t.state.isNext then
     let n ← nodeOf tid
     isNext ← match n.content with
@@ -591,7 +593,8 @@ partial def next (tid : Nat) : M Bool := do
       | .act a => nextAct tid n a
   let t ← getTask tid
   if t.state.isCompleted then
-    updateData tid (← get).vars
+    -- (a task that had ended before its kind's `next` ran has written its data before the successor was scheduled)
+    if !wasCompleted then updateData tid (← get).vars
     emitTask tid
     let w ← get
     let ct ← getTask w.cur
